@@ -224,6 +224,84 @@ def _registry_replay(case):
     return core.result([])
 
 
+# ---------------------------------------------------------------- class statements executed again
+
+
+def _redefinition_point(names):
+    """a history of class statements under one private root in which NAMES repeat (a class statement
+    in a factory function or loop, a re-run notebook cell, importlib.reload): every class carries alias
+    'x' (and its own 'n<k>'); after every definition from_alias('x') must build the class OBJECT created
+    last, whatever it is called, and 'n<k>' the k-th one"""
+    root = _fresh_root()
+    created = []
+    viol = []
+    evals = 0
+    for k, name in enumerate(names):
+        cls = type(name, (root,), {"aliases": {"x", "n%d" % k}, "__qualname__": name})
+        created.append(cls)
+        for alias, want in [("x", cls)] + [("n%d" % j, c) for j, c in enumerate(created)]:
+            evals += 1
+            r = computers.call(root.from_alias, alias)
+            if not (r[0] == "ok" and type(r[1]) is want):
+                which = created.index(type(r[1])) if r[0] == "ok" and type(r[1]) in created else None
+                viol.append(core.violation(
+                    dict(what="shadowing", redefinition=True, name_seen_before=name in names[:k],
+                         got=("exception:" + r[1]) if r[0] != "ok" else "earlier_class"),
+                    "class statements %r executed in this order under one root, all with alias 'x': after #%d "
+                    "from_alias(%r) gave %s, expected definition #%d" % (
+                        names[:k + 1], k, alias, "definition #%s (%s)" % (which, type(r[1]).__name__)
+                        if r[0] == "ok" else _show(r), created.index(want)), dict(names=names)))
+                return core.result(viol, evals=evals, nontrivial_count=evals, obs=[len(names), False])
+    return core.result(viol, evals=evals, nontrivial_count=evals, obs=[len(names), True],
+                       sample=dict(names=names))
+
+
+# ---------------------------------------------------------------- near misses of registered aliases
+
+
+def _variants(a):
+    return [" " + a, a + " ", a + "\n", "\t" + a, " " + a + " ", a.upper(), a.capitalize(), a.swapcase(),
+            a[:-1], a[1:], a + "x", a + a, a + "\x00", "_" + a]
+
+
+def _near_miss_point(fi):
+    """strings that are ALMOST a registered alias (surrounding whitespace, another case, one character
+    missing or added) are unknown aliases like any other: ValueError through from_alias, through the bare
+    string form of alias_factory_subclass_from_arg and through its mapping forms"""
+    from pydrobert.speech import alias as alias_mod
+
+    _load_all()
+    fam = _family(fi)
+    classes = _walk(fam)
+    known = set(a for c in classes for a in _own_aliases(c))
+    viol = []
+    evals = 0
+    sigs = set()
+    for a in sorted(known):
+        for v in _variants(a):
+            if v in known:
+                continue
+            for route, fn in (("from_alias", lambda: fam.from_alias(v)),
+                              ("str", lambda: alias_mod.alias_factory_subclass_from_arg(fam, v)),
+                              ("mapping_alias", lambda: alias_mod.alias_factory_subclass_from_arg(fam, {"alias": v})),
+                              ("mapping_name", lambda: alias_mod.alias_factory_subclass_from_arg(fam, {"name": v}))):
+                evals += 1
+                r = computers.call(fn)
+                if not (r[0] == "exc" and r[1] == "ValueError"):
+                    kind = ("whitespace" if v.strip() == a and v != a else "case" if v.lower() == a.lower()
+                            else "edit")
+                    t = dict(what="unknown_alias", family=fam.__name__, kind="near_miss_" + kind, route=route,
+                             got=("instance" if r[0] == "ok" else r[1]))
+                    k = core.sig_hash(t)
+                    if k not in sigs:
+                        sigs.add(k)
+                        viol.append(core.violation(
+                            t, "%s %r (a near miss of the registered alias %r): expected ValueError, got %s" % (
+                                route, v, a, _show(r)), dict(family=fi)))
+    return core.result(viol, evals=evals, nontrivial_count=evals, obs=[fam.__name__, len(known), len(viol) == 0],
+                       sample=dict(family=fam.__name__, aliases=len(known), variants_per_alias=14))
+
+
 # ---------------------------------------------------------------- shadowing
 
 
@@ -1030,6 +1108,19 @@ def subchecks(tier, seed):
             "non-trivial = an instance had to be built",
             axes=dict(family=[f[1] for f in FAMILIES], alias="all registered + '' + 'nope'"),
             replay=_registry_replay, serial=True),
+        core.SubCheck(
+            "redefinition", [list(n) for k in range(1, 6) for n in itertools.product("ABC", repeat=k)],
+            _redefinition_point,
+            "every sequence of 1..5 class statements over the NAMES {A, B, C} (names repeat: a class statement "
+            "executed again) under one private root, all carrying alias 'x': after every definition the alias "
+            "builds the class object created last and every private alias its own definition",
+            replay=lambda case: _redefinition_point(case["names"])),
+        core.SubCheck(
+            "near_miss_aliases", list(range(len(FAMILIES))), _near_miss_point,
+            "per family: every registered alias x 14 near misses (surrounding whitespace, other case, one "
+            "character dropped / added, doubled) that are not themselves registered x {from_alias, bare string, "
+            "mapping with alias, mapping with name}: ValueError",
+            replay=lambda case: _near_miss_point(case["family"])),
         core.SubCheck(
             "shadowing", shapes, _shadow_point,
             "every tree of k <= %d classes created in index order under a fresh private root (parent of "
